@@ -90,6 +90,25 @@ class _C18:
         return n1 + n2, info
 
 
+class _C01:
+    """model-based histories (hist) + converting inputs compared with std::vector<To> (conv)"""
+    @staticmethod
+    def run_check(prop, tier, verdict):
+        n1, info = hist.run_check(prop, tier, verdict)
+        if info is None:
+            return None, None
+        n2, cinfo = conv.run_check(prop, tier, verdict, builds=[("g++", "17")] if tier == "quick" else None, archetypes=False)
+        if cinfo is None:
+            return None, None
+        cov = info["cov"]
+        for k in ("conv_evaluations", "conv_nontrivial_evaluations", "conv_builds", "conv_rule"):
+            cov[k] = cinfo["cov"][k]
+        cov["history_evaluations"] = cov["evaluations"]
+        cov["evaluations"] += cinfo["cov"]["conv_evaluations"]
+        cov["samples"] = cov["samples"][:4] + cinfo["cov"]["conv_samples"][:2]
+        return n1 + n2, info
+
+
 class _C13:
     """twin differential (hist) + converting inputs + archetypes (conv)"""
     @staticmethod
@@ -110,6 +129,10 @@ class _C13:
 
 
 SIMPLE = {
+    "C01": (_C01, "exploration", ["g++ 12 / libstdc++ 12, -std=gnu++17 -O1 with ASan+UBSan, assertions enabled (no NDEBUG); converting inputs: g++ -std=c++17 (quick), plus g++ C++20 and clang++ C++14/C++20 (thorough)",
+                                  "the reference model (std::vector<int>) and the instrumented element / allocator / iterator types are correct (every alarm on the unchanged tree was adjudicated by hand, DESIGN.md §10, and the checks were exercised against independently written seeded changes, §9)",
+                                  "inputs whose value type differs from the element type are compared with the same call on std::vector<To> (68 type pairs, DESIGN.md §4 C13); bool sources are not generated",
+                                  "held on the generated cases only: this is search, not proof"]),
     "C20": (gdbpp, "exploration", ["gdb 13.1 with its Python API; g++ 12 -O0 -g and clang++ 14 -O0 -g -fstandalone-debug",
                                    "Visual Studio cannot be run here: for natvis only the resolution of its member paths to fields carrying the right values is checked (through gdb), not rendering; `inline_capacity_v` is only resolvable in the clang build (g++ omits unused static members from the debug info) and `m_alloc` only where the allocator is stored as a member",
                                    "elements are compared by value through the printer's children(), not by parsing printed text"]),
@@ -194,6 +217,7 @@ def claimed():
     out = {}
     for p in sorted(HIST_PROPS):
         out[p] = "fault" if p in ("C05", "C06") else "hist"
+    out["C01"] = "hist+conv"
     out["C08"] = "cx"
     out["C12"] = "lim"
     out["C13"] = "hist+conv"
